@@ -5,13 +5,13 @@ V = os.path.dirname(os.path.dirname(os.path.abspath(__file__)))
 
 CHECKS = {
  "C09": dict(
-   text="Theorems in Rocq (rocq/Props/C09.v, 10 statements, axiom-free, over a symbolic-signature model of head.Header.Contains, Envelope.Verify and internal/cli.Verify): sign-then-verify, stability under any list of non-overwriting additions (induction), wrong key fails, verify_sound with one conjunct per covered header member (uuid, digest, each stamp, link, tag, meta entry, notes) and its converse, verify-after-recalculation fails unless the digest collides, and cli_verify ok <-> validate ok and verify ok for the repaired command-line path; the as-shipped command-line path is refuted by a computed witness. The model is tied to the code by presenting ~600 modified signed envelopes x 4 keys (quick; thorough: all pairs and sampled triples of modifications) to Envelope.Verify, the gobl binary, POST /bulk and POST /verify of a loopback gobl serve, comparing verdict classes with the model and judging them against what the generator knows was signed.",
-   note="Signatures are symbolic (Sig signer header): ES256 unforgeability and go-jose/encoding-json correctness are assumed, not proved. Model = code after fixes/C09-9, C10-10, C10-11 diffs; until they are applied the three recorded defects (findings/C09.json) are reported as KNOWN-FINDING by narrow matchers, anything else as VIOLATION. Bulk/HTTP/CLI share one Go function, the model has one verdict for them; YAML input, per-element validation of stamps/links and uuid version rules are outside the model.",
+   text="Theorems in Rocq (rocq/Props/C09.v, 10 statements, axiom-free, over a symbolic-signature model of head.Header.Contains, Envelope.Verify and internal/cli.Verify): sign-then-verify, stability under any list of non-overwriting additions (induction), wrong key fails, verify_sound with one conjunct per covered header member (uuid, digest, each stamp, link, tag, meta entry, notes) and its converse, verify-after-recalculation fails unless the digest collides, cli_verify ok <-> validate ok and verify ok for the repaired command-line path, no verification path panics; the as-shipped command-line path is refuted by a computed witness. The model is tied to the code by presenting ~600 modified signed envelopes x 4 keys (quick; thorough: all pairs and sampled triples of modifications) to Envelope.Verify, the gobl binary, POST /bulk and POST /verify of a loopback gobl serve, comparing verdict classes with the model and judging them against what the generator knows was signed.",
+   note="Signatures are symbolic (Sig signer header): ES256 unforgeability and go-jose/encoding-json correctness are assumed, not proved. Model = repository code plus fixes/C09-9 and fixes/C10-10 diffs; until they are applied the two open defects (findings/C09.json) are reported as KNOWN-FINDING by narrow matchers, anything else - including the nil dereferences repaired by commit 3e1b1c1, whose witnesses stay in corpus/C09 - as VIOLATION. Bulk/HTTP/CLI share one Go function, the model has one verdict for them; YAML input, per-element validation of stamps/links and uuid version rules are outside the model.",
    technique="Rocq theorems over a Gallina model + differential correspondence (extracted OCaml vs Go library, CLI binary, loopback HTTP server)",
    design="7 (C09)"),
  "C10": dict(
-   text="Theorems in Rocq (rocq/Props/C10.v, 18 statements, axiom-free) over a state-machine model of gobl.Envelope (32 operations incl. JSON surgery): on API histories the shipped and the repaired code coincide step by step; the outcome of every API operation is a table function of the abstract state (four facts of the statement + validity outside a signing context + document present/calculable) on every state reachable by API operations (induction over histories with fold_left); Sign succeeds only on valid envelopes with matching digest, every signature in any API history covers the digest of a document valid for signing, a failed Sign leaves the envelope unsigned, stamps validate only when signed, every signature entry is real (all histories without the sigs:[null]/[\"\"] surgery; for the repaired code every validated envelope), Validate/Verify are read-only, the repaired code never panics; the shipped code's defects 10 and 11 are refuted by computed witnesses. Tie: all 16^4 histories over the 16-operation alphabet on the main document, 16^3 on three other documents and the empty envelope (thorough: 16^5 complete and a seed-chosen sixteenth of 16^6; VERIF_C10_FULL6=1 for all of 16^6), random histories of length 7-30 over all 32 operations, each run step by step on the real library and the extracted model (outcome class and len(sigs)), and judged by the statement's clauses with independent bookkeeping.",
-   note="The document is abstract (calculates / validates / has code / digest of content); four fixed invoices stand for it. Signatures symbolic (see C09). Model = code after fixes/C10-10 and C10-11 diffs; the two recorded defects (findings/C10.json) are matched narrowly (surgery operation present and as-shipped variant of exactly that function reproduces the output). A failed Sign on an envelope without header keeps earlier signatures (state unreachable by API operations; stated as a theorem, not judged).",
+   text="Theorems in Rocq (rocq/Props/C10.v, 16 statements, axiom-free) over a state-machine model of gobl.Envelope (32 operations incl. JSON surgery), for the shipped and the repaired code alike unless named otherwise: the outcome of every API operation is a table function of the abstract state (four facts of the statement + validity outside a signing context + document present/calculable) on every state reachable by API operations (induction over histories with fold_left), where shipped and repaired code coincide step by step; Sign succeeds only on valid envelopes with matching digest, every signature in any API history covers the digest of a document valid for signing, a failed Sign leaves the envelope unsigned, stamps validate only when signed, every signature entry is real (all histories without the sigs:[null]/[\"\"] surgery; for the repaired code every validated envelope, any history), Validate/Verify are read-only, nothing panics; the shipped code's open defect 10 is refuted by a computed witness. Tie: all 16^4 histories over the 16-operation alphabet on the main document, 16^3 on three other documents and the empty envelope (thorough: 16^5 complete and a seed-chosen sixteenth of 16^6; VERIF_C10_FULL6=1 for all of 16^6), random histories of length 7-30 over all 32 operations, each run step by step on the real library and the extracted model (outcome class and len(sigs)), and judged by the statement's clauses with independent bookkeeping.",
+   note="The document is abstract (calculates / validates / has code / digest of content); four fixed invoices stand for it. Signatures symbolic (see C09). Model = repository code plus fixes/C10-10 diff; the open defect (findings/C10.json) is matched narrowly (surgery operation present and as-shipped variant of exactly that function reproduces the output); the nil dereferences repaired by commit 3e1b1c1 are under 'fixed', their witnesses stay in corpus/C10 and are a VIOLATION if they return. A failed Sign on an envelope without header keeps earlier signatures (state unreachable by API operations; stated as a theorem, not judged).",
    technique="Rocq theorems over a Gallina model + exhaustive/random differential correspondence (extracted OCaml vs Go)",
    design="7 (C10)"),
  "C05": dict(
